@@ -327,3 +327,69 @@ def symbolic_value_on_path(path, stmt, expr=None, params=()):
             env[n.target.id] = ast.BinOp(left=clone(cur), op=n.op, right=_Subst(env).visit(clone(n.value)))
     e = expr if expr is not None else stmt.value
     return _Subst(env).visit(clone(e))
+
+
+# --------------------------------------------------- path-sensitive reach
+def body_paths(stmts, lineno=0):
+    """paths through a statement list (e.g. a loop body) treated as a function body;
+    break/continue end the path like a return"""
+    from ..paths import _paths, Path
+    out = []
+    for evs, term in _paths(list(stmts), 1, True):
+        out.append(Path(evs, term or "fall"))
+    return out
+
+
+def _contains(node, target):
+    if node is target:
+        return True
+    for n in ast.walk(node):
+        if n is target:
+            return True
+    return False
+
+
+def conds_before(path, target):
+    """branch conditions (test, polarity) on the path before the event that contains
+    `target`; None if the path does not reach the target"""
+    conds = []
+    for e in path.events:
+        if e.kind in ("stmt", "return", "raise", "cond"):
+            if _contains(e.node, target):
+                return conds
+        elif e.kind in ("loop0", "loop1"):
+            hdr = e.node.iter if isinstance(e.node, ast.For) else e.node.test
+            if _contains(hdr, target):
+                return conds
+        if e.kind == "cond":
+            conds.append((e.node, e.pol))
+    return None
+
+
+def consistent(conds):
+    """no condition occurs with both polarities (the analysed loop bodies do not
+    re-assign what their guards test between two occurrences)"""
+    seen = {}
+    for t, p in conds:
+        k = norm(t)
+        if k in seen and seen[k] != p:
+            return False
+        seen[k] = p
+    return True
+
+
+def reaches(paths, target, ev, env):
+    """is there a path on which every condition before `target` may hold under env?"""
+    for p in paths:
+        cs = conds_before(p, target)
+        if cs is None or not consistent(cs):
+            continue
+        ok = True
+        for t, pol in cs:
+            v = ev.eval3(t, env)
+            if v is not None and v != pol:
+                ok = False
+                break
+        if ok:
+            return True
+    return False
